@@ -14,6 +14,7 @@ query theorems show that `baseValue` / `baseValueBetween` plus the decision tabl
 import PV.C14.LemmasPointwise
 import PV.C14.LemmasField
 import PV.C14.LemmasAgg
+import PV.C14.LemmasShards
 namespace PV.C14
 open BA
 
@@ -148,8 +149,9 @@ theorem C14_field_query (f : Field) (h : f.WF) (op : Op) (value : Int) :
   apply List.filter_congr
   intro r hr
   have := execRange_bool r.frag f.g op value (h.recs r hr).colWF (h.rng r hr)
-  rw [Bool.eq_iff_iff, this]
-  cases op <;> simp [Op.holds, Spec.cmp, Rec.frag]
+  have hex : r.frag.ex = r.ex := rfl
+  rw [Bool.eq_iff_iff, this, hex]
+  cases op <;> simp [Op.holds, Spec.cmp]
 
 theorem C14_field_query_between (f : Field) (h : f.WF) (lo hi : Int) :
     f.rowBetween lo hi =
@@ -160,8 +162,9 @@ theorem C14_field_query_between (f : Field) (h : f.WF) (lo hi : Int) :
   apply List.filter_congr
   intro r hr
   have := execBetween_bool r.frag f.g lo hi (h.recs r hr).colWF (h.rng r hr)
-  rw [Bool.eq_iff_iff, this]
-  simp [Rec.frag]
+  have hex : r.frag.ex = r.ex := rfl
+  rw [Bool.eq_iff_iff, this, hex]
+  simp
 
 /-- Non-vacuity: the field of DESIGN §8 #9 (bounds [-100,1000], values 0..7 and -7, depth 3)
 satisfies the hypotheses, and the two queries that used to fail are answered exactly. -/
@@ -174,5 +177,164 @@ example : exampleField.rowRange .lt 500 = [0, 1, 2, 3, 4, 5, 6, 7, 8] := by deci
 example : exampleField.rowRange .gt (-50) = [0, 1, 2, 3, 4, 5, 6, 7, 8] := by decide
 example : exampleField.rowRange .gte (-7) = [0, 1, 2, 3, 4, 5, 6, 7, 8] := by decide
 example : exampleField.rowRange .lt (-1) = [8] := by decide
+
+/-! ### Sum / Min / Max on a fragment: exact sum, extreme value and multiplicity -/
+
+/-- Values of the columns `fragment.sum/min/max` consider: existing and selected by the filter. -/
+def consideredVals (cols : List Rec) (flt : Filter) (d : Nat) : List Int :=
+  (considerOf cols flt).map (fun r => r.frag.val d)
+
+theorem C14_sum (cols : List Rec) (flt : Filter) (d : Nat) :
+    fragSum cols flt d = ((consideredVals cols flt d).foldl (· + ·) 0, (consideredVals cols flt d).length) := by
+  rw [fragSum_eq, foldl_add_eq]; simp [consideredVals]
+
+theorem C14_min (cols : List Rec) (flt : Filter) (d : Nat) (wf : ∀ r ∈ cols, RecWF r d) :
+    fragMin cols flt d = Spec.minCount (consideredVals cols flt d) := fragMin_eq cols flt d wf
+
+theorem C14_max (cols : List Rec) (flt : Filter) (d : Nat) (wf : ∀ r ∈ cols, RecWF r d) :
+    fragMax cols flt d = Spec.maxCount (consideredVals cols flt d) := fragMax_eq cols flt d wf
+
+/-- `Spec.minCount` / `maxCount` are what the property asks for: the extreme value and the
+number of elements holding it. -/
+theorem C14_spec_min_max (l : List Int) (hl : l ≠ []) :
+    IsMin l (Spec.minCount l).1 (Spec.minCount l).2 ∧ IsMax l (Spec.maxCount l).1 (Spec.maxCount l).2 :=
+  ⟨minCount_spec l hl, maxCount_spec l hl⟩
+
+example : fragMin [⟨1, true, true, 7⟩, ⟨2, true, false, 0⟩, ⟨3, true, true, 7⟩] none 3 = (-7, 2) := by decide
+example : fragMax [⟨1, true, true, 7⟩, ⟨3, true, true, 5⟩] none 3 = (-5, 1) := by decide
+example : fragSum [⟨1, true, true, 3⟩, ⟨2, true, false, 5⟩] (some [2]) 3 = (5, 1) := by decide
+
+/-! ### Sum / Min / Max of a field over all its shards, through PQL and through the Go API -/
+
+/-- `Min`: the executor's reduce (`ValCount.smaller` over the per-shard results, any arrival order by
+C17) and `Field.Min` (`view.min`) both return the least value of the considered columns of ALL shards and
+the total number of columns holding it (count 0 when there is none). -/
+theorem C14_field_min (f : Field) (h : f.WF) (flt : Filter) :
+    let s := Spec.minCount (consideredVals f.cols flt f.g.depth)
+    ((f.pqlMin flt).count = s.2 ∧ (s.2 > 0 → (f.pqlMin flt).val = s.1 + f.g.base)) ∧
+    ((f.apiMin flt).count = s.2 ∧ (s.2 > 0 → (f.apiMin flt).val = s.1 + f.g.base)) := by
+  have hr := viewMin_result (f.shardVals flt) _ (f.shardVals_perm flt)
+  have hsim := sim_fold_min f.g.base ((f.shardVals flt).map Spec.minCount) (0, 0, false) ⟨0, 0⟩
+    (by simp [SimVC])
+  have e : f.pqlMin flt = (((f.shardVals flt).map Spec.minCount).map
+      (fun r => (⟨r.1 + f.g.base, r.2⟩ : ValCount))).foldl ValCount.smaller ⟨0, 0⟩ := by
+    simp only [Field.pqlMin, Field.minShard, ← Field.perShard_min h flt, List.map_map]
+    rfl
+  have e2 : f.apiMin flt = if f.shards.isEmpty then ⟨0, 0⟩ else
+      ⟨(((f.shardVals flt).map Spec.minCount).foldl viewMinStep (0, 0, false)).1 + f.g.base,
+       (((f.shardVals flt).map Spec.minCount).foldl viewMinStep (0, 0, false)).2.1⟩ := by
+    simp only [Field.apiMin, Field.perShard_min h flt]
+  have e3 : f.shards.isEmpty = true →
+      ((f.shardVals flt).map Spec.minCount).foldl viewMinStep (0, 0, false) = (0, 0, false) := by
+    intro hemp
+    have : f.shards = [] := List.isEmpty_iff.mp hemp
+    simp [Field.shardVals, this]
+  rw [e, e2]
+  simp only [consideredVals]
+  generalize ((f.shardVals flt).map Spec.minCount).foldl viewMinStep (0, 0, false) = R at *
+  generalize Spec.minCount ((considerOf f.cols flt).map (fun r => r.frag.val f.g.depth)) = S at *
+  generalize (((f.shardVals flt).map Spec.minCount).map
+      (fun r => (⟨r.1 + f.g.base, r.2⟩ : ValCount))).foldl ValCount.smaller ⟨0, 0⟩ = VC at *
+  obtain ⟨m, k, has⟩ := R
+  obtain ⟨sm, sk⟩ := S
+  obtain ⟨v, c⟩ := VC
+  simp only [AggOK, SimVC] at hr hsim
+  obtain ⟨r1, r2, r3⟩ := hr
+  obtain ⟨s1, s2, s3⟩ := hsim
+  subst r1
+  refine ⟨⟨s1, fun hp => by rw [s3 hp, r3 hp]⟩, ?_⟩
+  by_cases hemp : f.shards.isEmpty = true
+  · have := e3 hemp
+    simp only [Prod.mk.injEq] at this
+    simp only [hemp, if_true]
+    refine ⟨by omega, fun hp => by omega⟩
+  · simp only [hemp, Bool.false_eq_true, if_false]
+    exact ⟨trivial, fun hp => by rw [r3 hp]⟩
+
+/-- `Max`: likewise with the greatest value. -/
+theorem C14_field_max (f : Field) (h : f.WF) (flt : Filter) :
+    let s := Spec.maxCount (consideredVals f.cols flt f.g.depth)
+    ((f.pqlMax flt).count = s.2 ∧ (s.2 > 0 → (f.pqlMax flt).val = s.1 + f.g.base)) ∧
+    ((f.apiMax flt).count = s.2 ∧ (s.2 > 0 → (f.apiMax flt).val = s.1 + f.g.base)) := by
+  have hr := viewMax_result (f.shardVals flt) _ (f.shardVals_perm flt)
+  have hsim := sim_fold_max f.g.base ((f.shardVals flt).map Spec.maxCount) (0, 0, false) ⟨0, 0⟩
+    (by simp [SimVC])
+  have e : f.pqlMax flt = (((f.shardVals flt).map Spec.maxCount).map
+      (fun r => (⟨r.1 + f.g.base, r.2⟩ : ValCount))).foldl ValCount.larger ⟨0, 0⟩ := by
+    simp only [Field.pqlMax, Field.maxShard, ← Field.perShard_max h flt, List.map_map]
+    rfl
+  have e2 : f.apiMax flt = if f.shards.isEmpty then ⟨0, 0⟩ else
+      ⟨(((f.shardVals flt).map Spec.maxCount).foldl viewMaxStep (0, 0, false)).1 + f.g.base,
+       (((f.shardVals flt).map Spec.maxCount).foldl viewMaxStep (0, 0, false)).2.1⟩ := by
+    simp only [Field.apiMax, Field.perShard_max h flt]
+  have e3 : f.shards.isEmpty = true →
+      ((f.shardVals flt).map Spec.maxCount).foldl viewMaxStep (0, 0, false) = (0, 0, false) := by
+    intro hemp
+    have : f.shards = [] := List.isEmpty_iff.mp hemp
+    simp [Field.shardVals, this]
+  rw [e, e2]
+  simp only [consideredVals]
+  generalize ((f.shardVals flt).map Spec.maxCount).foldl viewMaxStep (0, 0, false) = R at *
+  generalize Spec.maxCount ((considerOf f.cols flt).map (fun r => r.frag.val f.g.depth)) = S at *
+  generalize (((f.shardVals flt).map Spec.maxCount).map
+      (fun r => (⟨r.1 + f.g.base, r.2⟩ : ValCount))).foldl ValCount.larger ⟨0, 0⟩ = VC at *
+  obtain ⟨m, k, has⟩ := R
+  obtain ⟨sm, sk⟩ := S
+  obtain ⟨v, c⟩ := VC
+  simp only [AggOK, SimVC] at hr hsim
+  obtain ⟨r1, r2, r3⟩ := hr
+  obtain ⟨s1, s2, s3⟩ := hsim
+  subst r1
+  refine ⟨⟨s1, fun hp => by rw [s3 hp, r3 hp]⟩, ?_⟩
+  by_cases hemp : f.shards.isEmpty = true
+  · have := e3 hemp
+    simp only [Prod.mk.injEq] at this
+    simp only [hemp, if_true]
+    refine ⟨by omega, fun hp => by omega⟩
+  · simp only [hemp, Bool.false_eq_true, if_false]
+    exact ⟨trivial, fun hp => by rw [r3 hp]⟩
+
+/-- `Sum`: both paths return the exact sum of the considered values of all shards (each value is the
+stored base-relative value plus the base) and their number. -/
+theorem C14_field_sum (f : Field) (flt : Filter) :
+    let V := consideredVals f.cols flt f.g.depth
+    f.pqlSum flt = ⟨sumInt V + (V.length : Int) * f.g.base, V.length⟩ ∧
+    f.apiSum flt = ⟨sumInt V + (V.length : Int) * f.g.base, V.length⟩ := by
+  intro V
+  have hp := f.shardVals_perm flt
+  have hs := sumInt_perm hp
+  have hl := hp.length_eq
+  have hper : f.shards.map (fun sh => fragSum (f.shardCols sh) flt f.g.depth) =
+      (f.shardVals flt).map (fun l => (sumInt l, l.length)) := by
+    simp only [Field.shardVals, List.map_map]
+    apply List.map_congr_left
+    intro sh _
+    simp [fragSum_eq]
+  constructor
+  · have e : f.pqlSum flt = ((f.shardVals flt).map
+        (fun l => (⟨sumInt l + (l.length : Int) * f.g.base, l.length⟩ : ValCount))).foldl ValCount.add ⟨0, 0⟩ := by
+      simp only [Field.pqlSum, Field.shardVals, List.map_map]
+      congr 1
+      apply List.map_congr_left
+      intro sh _
+      simp only [Field.sumShard, fragSum_eq, Function.comp, List.length_map]
+    rw [e, pqlSum_fold, hs, hl]
+    simp [V, consideredVals]
+  · simp only [Field.apiSum]
+    have efold : f.shards.foldl (fun (acc : Int × Nat) sh =>
+          ((acc.1 + (fragSum (f.shardCols sh) flt f.g.depth).1, acc.2 + (fragSum (f.shardCols sh) flt f.g.depth).2))) (0, 0)
+        = (sumInt V, V.length) := by
+      rw [← List.foldl_map (f := fun sh => fragSum (f.shardCols sh) flt f.g.depth)
+        (g := fun (acc : Int × Nat) r => (acc.1 + r.1, acc.2 + r.2)), hper, apiSum_fold, hs, hl]
+      simp [V, consideredVals]
+    split
+    · rename_i hemp
+      have hsn : f.shards = [] := List.isEmpty_iff.mp hemp
+      have : V = [] := by
+        have h0 : (f.shardVals flt).flatten = [] := by simp [Field.shardVals, hsn]
+        rw [h0] at hp
+        simpa [V, consideredVals] using (List.Perm.nil_eq hp).symm
+      simp [this, sumInt]
+    · simp only [efold]
 
 end PV.C14
